@@ -503,6 +503,25 @@ def task_d(path=Path("mc.txt")):
     "empty": ("task_empty.py", '''\
 HELPER = 1
 ''', "8::", {}),
+    "warn": ("task_warn.py", '''\
+import warnings
+
+
+def task_warns():
+    print("warning twice")
+    warnings.warn("a user warning", UserWarning, stacklevel=1)
+    warnings.warn("a deprecation warning", DeprecationWarning, stacklevel=1)
+''', "9::1", {"task_warns": 1}),
+    # the same task in a project of its own whose configuration file sets `filterwarnings`
+    "warncfg": ("task_warncfg.py", '''\
+import warnings
+
+
+def task_warns():
+    print("warning twice")
+    warnings.warn("a user warning", UserWarning, stacklevel=1)
+    warnings.warn("a deprecation warning", DeprecationWarning, stacklevel=1)
+''', "10::1", {"task_warns": 1}),
     "cyc": ("task_cyc.py", '''\
 from pathlib import Path
 
@@ -523,12 +542,14 @@ def write_seq_project(root: Path) -> None:
     for sub, (fname, src, _, _) in SUBS.items():
         (root / sub).mkdir()
         (root / sub / fname).write_text(src)
+    # a project root of its own: its configuration file turns user warnings into errors
+    (root / "warncfg" / "pyproject.toml").write_text('[tool.pytask.ini_options]\nfilterwarnings = ["error::UserWarning"]\n')
 
 
 def gen_seq(rng, idx: int, n=(2, 8)) -> dict:
     builds = []
     for _ in range(rng.randint(*n)):
-        sub = rng.choice(["ok", "ok", "dec", "fail", "badimp", "cyc", "marked", "marked", "marked", "empty"])
+        sub = rng.choice(["ok", "ok", "dec", "fail", "badimp", "cyc", "marked", "marked", "marked", "empty", "warn", "warn", "warncfg"])
         kw = {"capture": rng.choice(METHODS), "verbose": rng.choice([0, 1, 1, 2])}
         r = rng.random()
         if r < 0.2:
@@ -544,6 +565,13 @@ def gen_seq(rng, idx: int, n=(2, 8)) -> dict:
             elif r2 < 0.45:
                 kw["marker_expression"] = rng.choice(["mine", "try_first", "not try_last"])
             extra["ctl"] = "fail" if rng.random() < 0.25 else "ok"
+        # the warnings plugin: summary on / off x filters from the build arguments (the sub-project warncfg has them in its
+        # configuration file); `fail` is left out — its task installs a filter itself, which only the active plugin undoes
+        if sub != "fail" and rng.random() < 0.35:
+            kw["disable_warnings"] = True
+        if rng.random() < 0.35:
+            kw["filterwarnings"] = rng.choice([["error::UserWarning"], ["ignore::DeprecationWarning"],
+                                               ["error::DeprecationWarning", "ignore::UserWarning"], ["ignore"]])
         if rng.random() < 0.07:
             extra["corrupt_db"] = True   # configuration fails in database.pytask_post_parse
         if rng.random() < 0.2:
@@ -686,8 +714,8 @@ def oracle_c15(seq: dict, obs: dict) -> list:
         # --- same outcomes as a build in a fresh process
         if obs["fresh"]:
             fr = obs["fresh"][k]
-            mine = (rec.get("exit"), rec.get("tasks"), sorted(map(tuple, rec.get("reports", []))))
-            theirs = (fr.get("exit"), fr.get("tasks"), sorted(map(tuple, fr.get("reports", []))))
+            mine = (rec.get("exit"), rec.get("tasks"), sorted(map(tuple, rec.get("reports", []))), rec.get("n_warnings"))
+            theirs = (fr.get("exit"), fr.get("tasks"), sorted(map(tuple, fr.get("reports", []))), fr.get("n_warnings"))
             if mine != theirs:
                 finding = None
                 fname = {"dec": "foo"}.get(b["sub"])
@@ -788,6 +816,12 @@ def corpus_c15() -> list:
         return {"sub": sub, "kw": kw}
     return [
         {"idx": -1, "hashseed": 1, "builds": [b("ok", force=True)] * 6},                                   # F6 witness (fixed): leak trend, stdin
+        # the warnings plugin switched off while filters are configured (build argument / configuration file), then an unrelated
+        # project whose task only warns
+        {"idx": -12, "hashseed": 12, "builds": [b("ok", capture="no", disable_warnings=True, filterwarnings=["error::UserWarning"], force=True),
+                                                b("warn", capture="no"), b("warncfg", capture="fd", disable_warnings=True),
+                                                b("warn", capture="sys", force=True), b("warncfg", capture="no"),
+                                                b("warn", capture="no", filterwarnings=["ignore::DeprecationWarning"]), b("warn", capture="fd")]},
         # F30 witness (fixed by b7e10b4): marks appended during a build stayed on the function
         {"idx": -9, "hashseed": 9, "builds": [b("marked", capture="no", dry_run=True), b("marked", capture="no"),
                                                b("marked", capture="no", expression="task_a", force=True), b("marked", capture="no", force=True)]},
